@@ -3,8 +3,9 @@ import SslModel.Model.Val
   The static types the checker assigns (`ReturnType::return_type` after the admissibility tests of
   `create_instruction`), for the FIRST-ORDER EXPRESSION FRAGMENT of the language: literals, variables,
   array and tuple literals, prefix `!` / `-`, `&&` / `||`, the scalar binary operators, indexing and tuple
-  access on non-union operands, `if` / `else`, blocks and `:=` declarations.  Everything else (functions,
-  calls, cells, loops, match, if-set, structs, slices, iterators) answers `unsup` - the fragment is what the
+  access on non-union operands, `if` / `else`, `if x: T = e` (run-time type tests), `match` (type, value and default arms with
+  the coverage test), blocks and `:=` declarations.  Everything else (functions, calls, cells, loops, structs, slices,
+  iterators) answers `unsup` - the fragment is what the
   evaluator-level soundness theorem (Thm/C01Eval) is about.
 
   Sources: instruction/{array,tuple,prefix_op,unary_operation,bin_op,bin_op/math/add,bin_op/bitwise,at,
@@ -62,6 +63,31 @@ def binTy (op : BinOp) (l r : Ty) : Res Ty :=
   | .band | .bor | .bxor => if sub (pairTy l r) accBit then okW l else .ill
   | .filter | .map | .partition => .unsup
 
+/-- what the checker knows about an arm (`MatchArm::is_covering_type`) -/
+inductive ArmKind where
+  | value            -- `v1, v2 => ..`: never counted as covering
+  | other            -- `=> ..`
+  | ty (t : Ty)      -- `x: T => ..`
+
+/-- `MatchArm::is_covering_type` on a non-union type; at run time (`MatchArm::covers`) the same test is
+    applied to the scrutinee's run-time type -/
+def armCovers : ArmKind → Ty → Bool
+  | .value, _ => false
+  | .other, _ => true
+  | .ty a, t => sub t a
+
+/-- `Match::is_covering_type`: a union is covered member by member -/
+def covering (arms : List ArmKind) : Ty → Bool
+  | .multi ms => ms.all fun m => arms.any (armCovers · m)
+  | t => arms.any (armCovers · t)
+
+/-- what `MatchArm::is_covering_type` looks at -/
+def armKinds : List Arm → List ArmKind
+  | [] => []
+  | .ty _ t _ :: rest => .ty t :: armKinds rest
+  | .val _ _ :: rest => .value :: armKinds rest
+  | .other _ :: rest => .other :: armKinds rest
+
 mutual
 def tyOf : TEnv → Expr → Res Ty
   | _, .litBool _ => .ok .bool
@@ -104,7 +130,29 @@ def tyOf : TEnv → Expr → Res Ty
       | some e => (tyOf g e).bind fun te => okW (concat tt te)
       | none => okW (concat tt .void)
   | g, .block body => (tyOfSeq g body).bind fun (t, _) => okW t
+  | g, .ifSet x ty e body els =>
+      -- `if x: T = e body else els`: no admissibility test; `x` has the declared type in the body only
+      if !wf ty then .unsup else
+      (tyOf g e).bind fun _ => (tyOf ((x, ty) :: g) body).bind fun tb =>
+      match els with
+      | some el => (tyOf g el).bind fun tl => okW (concat tb tl)
+      | none => okW (concat tb .void)
+  | g, .matchE e arms =>
+      -- `Match::create_instruction`: the arms must cover the scrutinee's static type; the type is the join of the arms'
+      (tyOf g e).bind fun te => (tyOfArms g arms).bind fun tys =>
+      if !(covering (armKinds arms) te) then .ill else okW (concatL tys)
   | _, _ => .unsup
+/-- the body types of the arms, in order (`x: T => body` types its body with `x : T`; the candidates of a value arm are
+    expressions of any type) -/
+def tyOfArms : TEnv → List Arm → Res (List Ty)
+  | _, [] => .ok []
+  | g, .ty x t body :: rest =>
+      if !wf t then .unsup else
+      (tyOf ((x, t) :: g) body).bind fun tb => (tyOfArms g rest).bind fun ts => .ok (tb :: ts)
+  | g, .val cands body :: rest =>
+      (tyOfList g cands).bind fun _ => (tyOf g body).bind fun tb => (tyOfArms g rest).bind fun ts => .ok (tb :: ts)
+  | g, .other body :: rest =>
+      (tyOf g body).bind fun tb => (tyOfArms g rest).bind fun ts => .ok (tb :: ts)
 def tyOfList : TEnv → List Expr → Res (List Ty)
   | _, [] => .ok []
   | g, e :: es => (tyOf g e).bind fun t => (tyOfList g es).bind fun ts => .ok (t :: ts)
